@@ -3,8 +3,8 @@
    the dialect semantics of Model/C01Sql.v (only SQLite executes in this sandbox; PostgreSQL and MySQL are documentation
    models).  [safe d] is the complement of the recorded per-dialect defects (Findings/C01.v, Findings/C02.v). *)
 Require Import PonyV.Base.PyBase PonyV.Model.C01Expr PonyV.Model.C01Sql PonyV.Model.C01Translate PonyV.Model.C01Safe
-               PonyV.Model.C01Eqb PonyV.Model.C01Query PonyV.Model.C01Join PonyV.Model.C01Coll
-               PonyV.Proofs.C01Rows PonyV.Proofs.C01Join PonyV.Proofs.C02Agree PonyV.Proofs.C02Join PonyV.Proofs.C01Coll PonyV.Proofs.C02Coll.
+               PonyV.Model.C01Eqb PonyV.Model.C01Query PonyV.Model.C01Join PonyV.Model.C01Coll PonyV.Model.C01Aggr
+               PonyV.Proofs.C01Rows PonyV.Proofs.C01Join PonyV.Proofs.C02Agree PonyV.Proofs.C02Join PonyV.Proofs.C01Coll PonyV.Proofs.C02Coll PonyV.Proofs.C01Aggr PonyV.Proofs.C02Aggr.
 
 (* a selected expression decodes to the same Python value on any two dialects *)
 Theorem C02_agree_project_except_known : forall d1 d2, modelled d1 = true -> modelled d2 = true ->
@@ -59,6 +59,20 @@ Theorem C02_agree_collection_rows_except_known : forall d1 d2, modelled d1 = tru
   map (dec (TV vt)) (sql_coll_rows d1 params db distinct xs1 q1) = map (dec (TV vt)) (sql_coll_rows d2 params db distinct xs2 q2).
 Proof. exact agree_coll_rows. Qed.
 Print Assumptions C02_agree_collection_rows_except_known.
+
+(* aggregates as whole-query results (Model/C01Aggr.v): the same decoded value on any two dialects; known bad per dialect:
+   PostgreSQL has no sum / avg of a boolean ([aggr_safe], finding postgres-sum-avg-of-boolean) *)
+Theorem C02_agree_aggregate_except_known : forall d1 d2, modelled d1 = true -> modelled d2 = true ->
+  forall table filt g c1 qa1 c2 qa2,
+  filt_typed filt = true ->
+  tr_where d1 filt = Some c1 -> tr_aggr d1 0%nat g = Some qa1 ->
+  tr_where d2 filt = Some c2 -> tr_aggr d2 0%nat g = Some qa2 ->
+  aggr_safe d1 g = true -> aggr_safe d2 g = true ->
+  keys_ok (map (fun en => attr_val en 0%nat) table) = true ->
+  Forall (fun en => arow_ok d1 filt g en /\ arow_ok d2 filt g en) table ->
+  deca_g g (sql_aggr d1 qa1 c1 table) = deca_g g (sql_aggr d2 qa2 c2 table).
+Proof. exact agree_aggr. Qed.
+Print Assumptions C02_agree_aggregate_except_known.
 
 (* query[offset:] : each dialect's way of writing "no limit" (SQLite LIMIT -1, MySQL LIMIT 18446744073709551615,
    PostgreSQL LIMIT null) returns exactly the rows after the offset (tables of at most 2^64 - 1 rows) *)
